@@ -593,6 +593,39 @@ def programs(draw, maxnodes=12, maxdepth=5, maxloops=2, nouts=1, dtypes=('bool',
     return prune(dict(nodes=g.nodes, outs=outs, args=g.args))
 
 
+@st.composite
+def outer_loop_programs(draw, maxnodes=12, maxdepth=4, nouts=1, dtypes=('int', 'float', 'complex')):
+    """programs whose outputs are loops of 3..12 iterations with a body that depends on the loop index (for the parallel checks)"""
+    g = Gen(draw, maxnodes=maxnodes, maxdepth=maxdepth, maxloops=2, dtypes=dtypes + ('bool',), family_bias=0.5)
+    outs = []
+    for k in range(draw(st.integers(1, nouts))):
+        dtype = draw(st.sampled_from(list(dtypes)))
+        L = draw(st.sampled_from([3, 4, 5, 6, 8, 12]))
+        name = 'P%d' % k if draw(st.booleans()) else 'P0'
+        kind = draw(st.sampled_from(['loopsum', 'loopsum', 'loopcat']))
+        nd = draw(st.sampled_from([0, 1, 1, 2]))
+        shape = [g.length(1) for _ in range(nd)]
+        g.active.append((name, L)); g.nloops += 1
+        try:
+            body = g.gen(dtype, shape, maxdepth - 1, 'loopsum')
+            if (name, L) not in g.free[body]:
+                # make the body depend on the index: add an element-wise table
+                tables = [g.const_values(dtype, shape) for _ in range(L)]
+                ew = g.emit('elemwise', [], dict(loop=name, length=L, tables=tables), dtype, shape)
+                body = g.emit('add', [body, ew], {}, dtype, shape)
+            if kind == 'loopsum' and shape and draw(st.booleans()):
+                # scatter every iteration's contribution into a shared accumulator
+                n = max(shape[-1], 1)
+                big = shape[:-1] + [n + L - 1] if False else shape
+        finally:
+            g.active.pop()
+        if kind == 'loopsum' or not shape:
+            outs.append(g.emit('loopsum', [body], dict(loop=name, length=L), dtype, shape))
+        else:
+            outs.append(g.emit('loopcat', [body], dict(loop=name, length=L, sizes=[shape[-1]] * L), dtype, shape[:-1] + [shape[-1] * L]))
+    return prune(dict(nodes=g.nodes, outs=outs, args=g.args))
+
+
 def prune(prog):
     keep = set()
     stack = list(prog['outs'])
